@@ -355,8 +355,8 @@ class Runner:
                         if verdict == 'spurious':
                             # reals-with-rounding over-approximates doubles: a model that does not reproduce is excluded and
                             # another one requested; only if none reproduces the obligation stays inconclusive
-                            if attempt >= 30:
-                                res.inconclusive.append('%s: 30 candidate counterexamples for %s did not reproduce (float abstraction too coarse)' % (job_label, ob.label))
+                            if attempt >= (30 if eng.float_mode != 'F' else 10):
+                                res.inconclusive.append('%s: %d candidate counterexamples for %s did not reproduce (float abstraction too coarse)' % (job_label, attempt, ob.label))
                                 break
                         # a recorded known finding: exclude exactly this input and ask again, so that any other
                         # violation of the same clause on this path is still found
